@@ -44,6 +44,7 @@ From CG Require Import Model.Ambiguity.
 From CG Require Import Model.Driver.
 From CG Require Model.DotOfRegex.
 From CG Require Import Model.EmitData.
+From CG Require Import Spec.InvocationsSub.
 (* add new Require lines above this line *)
 Require Import ExtrOcamlBasic ExtrOcamlString.
 Extraction Language OCaml.
@@ -74,6 +75,7 @@ Separate Extraction
   ShellDQ.read
   ShellDQ.read_list
   ShellDQ.admissibleb
+  ShellDQ.outside_known_class
   Tables.all_tables
   Tables.valid_orders
   Tables.isomorphic_to
@@ -160,5 +162,6 @@ Separate Extraction
   Ambiguity.check_ambiguity_best_effort
   Driver.compile
   EmitData.data_of_dfa
+  InvocationsSub.spec_run_sw
   (* add new roots above this line *)
   Prelude.pow2.
